@@ -37,9 +37,11 @@ MANIFEST = {
             "explains all of them.",
     "note": "Interfaces are scripted sources (capture.WithSourceInitFn), the host interface list is replaced through pkg/capture's "
             "hostLinks test variable (go:linkname, no change to /repo), 'parameters a capture runs with' = the configuration the "
-            "capture object was created with (what the real AF_PACKET source would be opened with). Opening a source takes 3 ms in "
-            "all schedules but the restart-stress ones (0 ms), where a race of the manager is probed opportunistically. Explicit "
-            "names are host interfaces; patterns are never disabled; write-out timestamps are substituted.",
+            "capture object was created with (what the real AF_PACKET source would be opened with). Regular schedules call Update "
+            "with a context that is cancelled afterwards (this ends the manager's per-capture error-logging goroutines and makes the "
+            "schedules deterministic); the restart-stress schedules keep them (background context) and probe a scheduling-dependent "
+            "race of the manager opportunistically. Explicit names are host interfaces; patterns are never disabled; write-out "
+            "timestamps are substituted.",
     "ref": "6.6",
 }
 
@@ -60,8 +62,8 @@ def _gen_job(genset, seed):
     return ("ReconfigGen", "ReconfigGen.cfg", {"timeout": 1500, "consts": 'CONSTANT GenSet = "%s"\nCONSTANT Seed = %d' % (genset, seed)})
 
 
-def _replay(vh, domain, behs, negative=False, workers=8, delay=3):
-    args = ["rc-replay", "-workers", str(workers), "-startdelay", str(delay)] + (["-negative"] if negative else [])
+def _replay(vh, domain, behs, negative=False, workers=8, keep_loggers=False):
+    args = ["rc-replay", "-workers", str(workers)] + (["-negative"] if negative else []) + (["-keeploggers"] if keep_loggers else [])
     lines = [json.dumps(domain, separators=(",", ":"))] + [json.dumps(b, separators=(",", ":")) for b in behs]
     rc, outs, err = vlib.run_vh(vh, args, stdin_lines=lines, timeout=3000)
     summ = [o for o in outs if o.get("summary")]
@@ -180,14 +182,14 @@ def main():
             if o.get("ok") is False:
                 classes[o["desc"].get("cls")] += 1
                 run.violation(o["desc"], {"kind": "rc-replay", "domain": domain, "behaviour": o.get("behaviour"), "step": o.get("step"),
-                                          "startdelay": 3, "msg": o.get("msg", "")[:2500]})
+                                          "keep_loggers": False, "msg": o.get("msg", "")[:2500]})
 
-        # restart stress (opening a source takes no time): a restarted capture must survive
+        # restart stress with the manager's error-logging goroutines kept alive (as in goProbe): a restarted capture must survive
         g = res["gen-restart"]
         vlib.expect_tlc_ok(g, "ReconfigGen/restart")
         run.add_tlc(g, "ReconfigGen/restart")
         copies = 24 if thorough else 8
-        souts, ssumm = _replay(vh, domain, g.traces * copies, delay=0)
+        souts, ssumm = _replay(vh, domain, g.traces * copies, keep_loggers=True)
         run.count(ssumm["steps"])
         run.cov["traces_validated_against_impl"] += len(g.traces) * copies
         run.cov["restart_stress"] = {"updates": ssumm["updates"], "failing": ssumm["failed"]}
@@ -195,7 +197,7 @@ def main():
             if o.get("ok") is False:
                 classes[o["desc"].get("cls")] += 1
                 run.violation(o["desc"], {"kind": "rc-replay", "domain": domain, "behaviour": o.get("behaviour"), "step": o.get("step"),
-                                          "startdelay": 0, "msg": o.get("msg", "")[:2500],
+                                          "keep_loggers": True, "msg": o.get("msg", "")[:2500],
                                           "note": "timing dependent: re-run the replay several times"})
 
         # negative control F: one expected database count changed at the last step of every behaviour
@@ -276,7 +278,7 @@ def main():
         "the host's interfaces are e0, e1, x0 (pkg/capture.hostLinks replaced); explicit names are host interfaces; patterns are never disabled",
         "traffic is one TCP conversation; packets are delivered before each update and (second variant) after the final write-out of the "
         "captures to be stopped and before their stop; the harness cannot deliver packets between stop and start",
-        "opening a capture source takes 3 ms except in the restart-stress schedules (0 ms)",
+        "Update is called with a per-call context cancelled afterwards, except in the restart-stress schedules (background context)",
         "an interface entry with disable=true is not selected (config.go: 'explicitly disables capture on this interface')",
     ]
     return run.finish()
@@ -286,7 +288,7 @@ def replay(path):
     d = json.load(open(path))["replay"]
     vh = vlib.build_vh(FAMILY)
     if d["kind"] == "rc-replay":
-        outs, summ = _replay(vh, d["domain"], [d["behaviour"]], workers=1, delay=d.get("startdelay", 3))
+        outs, summ = _replay(vh, d["domain"], [d["behaviour"]], workers=1, keep_loggers=d.get("keep_loggers", False))
         bad = [o for o in outs if o.get("ok") is False]
         for o in bad or outs:
             o.pop("behaviour", None)
